@@ -100,3 +100,129 @@ Lemma sys_from_net a0 b0 ms :
   from_net a0 (fst (sys_run a0 b0 ms)) (snd (sys_run a0 b0 ms)) /\
   from_net b0 (snd (sys_run a0 b0 ms)) (fst (sys_run a0 b0 ms)).
 Proof. apply sys_inv; intros s r []. Qed.
+
+(* ---------------------------------------------------------------- one direction *)
+Definition snd_init := TcpSndP.established.
+Definition rcv_init (irs : Z) (t : tcp) : Prop :=
+  rcvNxt (RC t) = seq_of irs 0 /\ rclosed (RC t) = false /\ pending (RC t) = [] /\ rcvList t = [].
+
+Lemma u32_seq_of iss off : u32 (seq_of iss off) = seq_of iss off.
+Proof. unfold seq_of, u32. apply Z.mod_mod. change (2^32) with 4294967296. lia. Qed.
+
+(* every segment X's peer received from the network is acceptable input for the receive theorem,
+   with P = everything X's application has written so far *)
+Lemma delivered_ok2 issX x0 ex ey :
+  snd_init issX x0 -> from_net x0 ex ey ->
+  (forall s r, In (ESeg s r) ex -> is_u32 (s_ack s)) ->
+  len (TcpSndP.written x0 ex) < 2^30 ->
+  Forall (TcpRcvP.ev_ok2 (TcpSndP.written x0 ex) issX) ey.
+Proof.
+  intros HI HN HA HB. set (W := TcpSndP.written x0 ex) in *.
+  assert (Hok : Forall TcpSndP.ev_ok ex).
+  { apply Forall_forall. intros e He. destruct e as [s r| | | |]; cbn; auto. exact (HA s r He). }
+  apply Forall_forall. intros e He. destruct e as [s r| | | |]; cbn; auto.
+  destruct (HN s r He) as (f & ts & te & -> & Hf). cbn [seg_of s_data s_flags].
+  destruct (f_data f) as [|b d] eqn:ED.
+  - destruct (has (f_flags f) fFin) eqn:EF.
+    + (* the FIN: empty, at offset |W| *)
+      right. destruct (TcpSndP.fin_after_all_data_established issX x0 ex HI Hok HB f Hf EF) as (_ & Hs & _).
+      unfold TcpRcvP.seg_slice, TcpRcvP.is_slice. cbn [seg_of s_seq s_flags s_data]. exists (len W).
+      rewrite Hs, u32_seq_of, ED. split; [reflexivity|]. split.
+      * unfold TcpRcvP.slice_at, TcpRcvP.zlen. cbn [length]. unfold len. split; [lia|]. split; [lia|]. reflexivity.
+      * intros _. unfold TcpRcvP.zlen. cbn [length]. unfold len. lia.
+    + left. split; reflexivity.
+  - (* a data segment: a slice of W at the offset its number names; never carries FIN *)
+    right. assert (Hd : f_data f <> []) by (rewrite ED; discriminate).
+    destruct (TcpSndP.snd_emits_slices_established issX x0 ex HI Hok HB f Hf Hd) as (off & Hs & Hsl).
+    pose proof (TcpSndP.established_Inv issX x0 HI) as HInv.
+    assert (HB' : len ([] ++ TcpSndP.written x0 ex) < 2^30) by exact HB.
+    destruct (TcpSndP.data_before_fin issX [] x0 ex HInv Hok HB' f Hf Hd) as (Hnf & _).
+    unfold TcpRcvP.seg_slice, TcpRcvP.is_slice. cbn [seg_of s_seq s_flags s_data]. exists off.
+    rewrite Hs, u32_seq_of. split; [reflexivity|]. split.
+    + apply TcpSndInvP.is_slice_firstn_skipn in Hsl. unfold TcpRcvP.slice_at, TcpRcvP.zlen. exact Hsl.
+    + intros Hfin. apply TcpRcvP.has_fin in Hfin. congruence.
+Qed.
+
+Lemma one_direction issX x0 y0 ex ey :
+  snd_init issX x0 -> rcv_init issX y0 -> from_net x0 ex ey ->
+  (forall s r, In (ESeg s r) ex -> is_u32 (s_ack s)) ->
+  len (TcpSndP.written x0 ex) < 2^30 ->
+  exists rest, concat (TcpRcvP.reads_run y0 ey) ++ rest = TcpSndP.written x0 ex.
+Proof.
+  intros HI (R1 & R2 & R3 & R4) HN HA HB.
+  pose proof (delivered_ok2 issX x0 ex ey HI HN HA HB) as Hok.
+  pose proof (TcpRcvP.rcv_inv_established (TcpSndP.written x0 ex) issX y0 R1 R2 R3 R4) as Hinv.
+  assert (HL : TcpRcvP.zlen (TcpSndP.written x0 ex) < 2^31).
+  { change (TcpRcvP.zlen (TcpSndP.written x0 ex)) with (len (TcpSndP.written x0 ex)).
+    change (2^30) with 1073741824 in HB. change (2^31) with 2147483648. lia. }
+  destruct (TcpRcvP.rcv_reads_prefix2 _ _ [] y0 ey HL Hinv Hok) as (rest & E).
+  exists rest. exact E.
+Qed.
+
+Lemma from_net_acks x0 ex ey : from_net x0 ex ey -> forall s r, In (ESeg s r) ey -> is_u32 (s_ack s).
+Proof.
+  intros HN s r Hin. destruct (HN s r Hin) as (f & ts & te & -> & _). cbn [seg_of s_ack].
+  unfold is_u32, u32. apply Z.mod_pos_bound. change (2^32) with 4294967296. lia.
+Qed.
+
+(* ---------------------------------------------------------------- the closed-system theorem *)
+Definition conn_init (issA issB : Z) (a0 b0 : tcp) : Prop :=
+  snd_init issA a0 /\ snd_init issB b0 /\ rcv_init issB a0 /\ rcv_init issA b0.
+
+Theorem tcp_stream_prefix issA issB a0 b0 ms :
+  conn_init issA issB a0 b0 ->
+  let ea := fst (sys_run a0 b0 ms) in
+  let eb := snd (sys_run a0 b0 ms) in
+  len (TcpSndP.written a0 ea) < 2^30 -> len (TcpSndP.written b0 eb) < 2^30 ->
+  (exists rest, concat (TcpRcvP.reads_run b0 eb) ++ rest = TcpSndP.written a0 ea) /\
+  (exists rest, concat (TcpRcvP.reads_run a0 ea) ++ rest = TcpSndP.written b0 eb).
+Proof.
+  intros (SA & SB & RA & RB) ea eb HA HB.
+  destruct (sys_from_net a0 b0 ms) as [NA NB]. fold ea eb in NA, NB.
+  split.
+  - apply (one_direction issA a0 b0 ea eb SA RB NA); [|exact HA].
+    exact (from_net_acks b0 eb ea NB).
+  - apply (one_direction issB b0 a0 eb ea SB RA NB); [|exact HB].
+    exact (from_net_acks a0 ea eb NA).
+Qed.
+
+(* "at all times": the statement holds after every prefix of the schedule, because it holds for
+   every schedule *)
+Corollary tcp_stream_prefix_always issA issB a0 b0 ms k :
+  conn_init issA issB a0 b0 ->
+  let ms' := firstn k ms in
+  let ea := fst (sys_run a0 b0 ms') in
+  let eb := snd (sys_run a0 b0 ms') in
+  len (TcpSndP.written a0 ea) < 2^30 -> len (TcpSndP.written b0 eb) < 2^30 ->
+  (exists rest, concat (TcpRcvP.reads_run b0 eb) ++ rest = TcpSndP.written a0 ea) /\
+  (exists rest, concat (TcpRcvP.reads_run a0 ea) ++ rest = TcpSndP.written b0 eb).
+Proof. intros H. exact (tcp_stream_prefix issA issB a0 b0 (firstn k ms) H). Qed.
+
+(* ---------------------------------------------------------------- non-vacuity: a concrete connection and schedule *)
+Definition fresh (iss irs : Z) : tcp :=
+  mkTcp (mkRcvr (u32 (irs + 1)) (u32 (irs + 1 + 65535)) 0 false [] 0 65535)
+        (mkSndr 0 false 0 (u32 iss) 0 10 maxInt 0 0 30000 (u32 (iss + 1)) (u32 (iss + 1)) (u32 (iss + 1)) false
+                [] [] 0 1000000000 4 0 (u32 (irs + 1)) (u32 (iss + 1)))
+        [] 0 65535 false 65535 0 false 0 false [].
+
+Example ex_conn_init : conn_init 4294967290 2147483640 (fresh 4294967290 2147483640) (fresh 2147483640 4294967290).
+Proof.
+  unfold conn_init, snd_init, rcv_init, TcpSndP.established, fresh, seq_of. cbn.
+  repeat split; try reflexivity; lia.
+Qed.
+
+(* A writes 10 bytes (MSS 4: three segments, the stream crosses 2^32); the network delivers the third,
+   then the first twice, then the second; B reads everything; B writes back and A reads it *)
+Definition ex_ms : list move :=
+  [MAppA (AWrite [1;2;3;4;5;6;7;8;9;10]); MDeliverB 2 false false 0; MDeliverB 0 false false 0;
+   MDeliverB 0 false false 0; MAppB ARead; MDeliverB 1 false false 0; MAppB ARead; MAppB ARead;
+   MAppB (AWrite [42;43]); MDeliverA 0 false false 0; MDeliverA 3 false false 0; MAppA ARead].
+
+Example ex_run :
+  let a0 := fresh 4294967290 2147483640 in
+  let b0 := fresh 2147483640 4294967290 in
+  let ea := fst (sys_run a0 b0 ex_ms) in
+  let eb := snd (sys_run a0 b0 ex_ms) in
+  concat (TcpRcvP.reads_run b0 eb) = [1;2;3;4;5;6;7;8;9;10] /\ TcpSndP.written a0 ea = [1;2;3;4;5;6;7;8;9;10]
+  /\ TcpSndP.written b0 eb = [42;43].
+Proof. vm_compute. repeat split; reflexivity. Qed.
